@@ -68,6 +68,14 @@ CLAIMED["C08"] = ("DESIGN.md §4 C08",
     "composition for all operator pairs. By induction over the post-fix array this covers programs of any depth.",
     "trusted: pysym; nodes are attribute bags; model stub echoes reference text; outside: date literals, formula_ast, Numbers' own display")
 
+CLAIMED["C17"] = ("DESIGN.md §4 C17",
+    "Faults are symbolic: archive members of 0..8 arbitrary bytes through the real _store_blob/is_iwa_file, a zip container "
+    "whose every member read may fail in each way the stdlib documents, plist parsing that may fail or lack the key, decoders "
+    "that may raise any Exception or return archives of any small shape: z3 shows only FileError/FileFormatError/"
+    "UnsupportedError leave IWork.open, _store_blob and ObjectStore.__init__.",
+    "trusted: pysym; environment stubs (ZipFile, plistlib.loads, IWAFile.from_buffer outcome, Path) active in symbolic and "
+    "native runs alike; outside: which bytes make zlib/snappy/protobuf fail, package-folder form, OS-level I/O errors")
+
 NOT_APPLICABLE = {}
 
 
